@@ -126,7 +126,9 @@ func (cm cronMask) IsRunAt(t time.Time) bool {
 		}
 
 	case cronMaskTypeLastDM:
-		last := t.AddDate(0, 1, -t.Day()).Day()
+		// calendar arithmetic in UTC: Date() in the location of t moves a wall clock
+		// that falls into a DST gap, which can be another day
+		last := time.Date(t.Year(), t.Month()+1, 0, 0, 0, 0, 0, time.UTC).Day()
 		return last == t.Day()
 
 	case cronMaskTypeLastDW:
@@ -139,7 +141,9 @@ func (cm cronMask) IsRunAt(t time.Time) bool {
 			return false
 		}
 		tm := t.Month()
-		m := t.Add(time.Hour * 7 * 24).Month()
+		// the same weekday of the next week by calendar arithmetic (not +168h:
+		// a DST change within the week shifts the wall clock)
+		m := time.Date(t.Year(), tm, t.Day()+7, 0, 0, 0, 0, time.UTC).Month()
 		if tm != m {
 			return true
 		}
